@@ -378,7 +378,7 @@ impl Monitor for C08 {
             }
         } else if k < self.n_gen + self.n_comp {
             let mut r = Rng::derive(self.seed, 0x0802, k - self.n_gen, 0);
-            let s = streams::compressor_stream(&mut r, max_plain, None);
+            let s = if k % 50 == 49 { streams::boundary_dense_stream(&mut r, max_plain) } else { streams::compressor_stream(&mut r, max_plain, None) };
             Self::judge_stream(
                 &s.bytes,
                 &format!("{}: {}", streams::SOURCE_NAMES[s.source], s.recipe),
